@@ -70,6 +70,7 @@ type TypeOpts struct {
 	NoPointers  bool
 	OnlyNamed   bool
 	NoEmbed     bool   // no anonymously embedded structs
+	NoRecursive bool   // none of the named recursive types (RecTree, RecMap, RecList, RecMix)
 	Salt        string // made part of struct field names so types are fresh (first-use cache paths)
 }
 
@@ -95,6 +96,9 @@ func RandType(r *rand.Rand, depth int, o TypeOpts) reflect.Type {
 		}
 		return reflect.PtrTo(RandType(r, depth-1, o))
 	case 8, 9, 10:
+		if !o.NoRecursive && r.Intn(8) == 0 {
+			return recursiveTypes[r.Intn(len(recursiveTypes))]
+		}
 		return RandStruct(r, depth, o)
 	default:
 		if o.NoSpecial {
@@ -268,8 +272,47 @@ func scalarIface(r *rand.Rand) interface{} {
 	}
 }
 
+// Recursive named types (reflect cannot build these): a map, slice or struct type that contains itself by value
+// through a map or slice. fill stops descending into them once depth is exhausted.
+type RecTree struct {
+	Kids map[string]RecTree
+	Val  int
+	Tail string
+}
+
+type RecMap map[string][]RecMap
+
+type RecList struct {
+	Next []RecList
+	V    int8
+}
+
+type RecMix struct {
+	A int
+	M map[int64]RecMix
+	L []RecMix
+	Z string
+}
+
+var recursiveTypes = []reflect.Type{reflect.TypeOf(RecTree{}), reflect.TypeOf(RecMap(nil)), reflect.TypeOf(RecList{}), reflect.TypeOf(RecMix{}),
+	reflect.TypeOf([]RecTree(nil)), reflect.TypeOf(map[string]RecList(nil))}
+
+// IsRecursiveType reports whether t is one of the named recursive types.
+func IsRecursiveType(t reflect.Type) bool { return isRecursiveType(t) }
+
+func isRecursiveType(t reflect.Type) bool {
+	switch t {
+	case recursiveTypes[0], recursiveTypes[1], recursiveTypes[2], recursiveTypes[3]:
+		return true
+	}
+	return false
+}
+
 func fill(r *rand.Rand, v reflect.Value, depth int) {
 	t := v.Type()
+	if depth < -1 && (isRecursiveType(t) || (t.Kind() == reflect.Slice || t.Kind() == reflect.Map) && isRecursiveType(t.Elem())) {
+		return // a recursive type bottoms out with zero values (nil maps and slices)
+	}
 	switch t {
 	case TTime:
 		v.Set(reflect.ValueOf(GoTime(r)))
